@@ -148,7 +148,80 @@ def replay(ctx: Ctx, recs: List[Dict[str, Any]]) -> None:
             close(ctx, f"scheme:{scheme}:volatility", "the volatility series is not sigma(t_k, S_k)", out.volatility, vexp, rs)
 
 
+def cir_moments(ctx: Ctx, recs: List[Dict[str, Any]]) -> None:
+    """One step of the quadratic-exponential scheme from the value v must have the conditional mean m and variance s2 of the
+    CIR process (CIR.tla).  The real generator is run on Gauss-Hermite nodes as normals (quadratic branch: V' is a quadratic
+    polynomial of Z, so three nodes integrate V' and V'^2 exactly) or on Gauss-Laguerre nodes mapped to uniforms (exponential
+    branch: V' = y/beta for u = 1 - (1-p) exp(-y)); plus probes on both sides of the atom at zero."""
+    import math
+    from pfhedge.stochastic import generate_cir, generate_heston
+    r3, r2 = math.sqrt(3.0), math.sqrt(2.0)
+    zn, zw = [-r3, 0.0, r3], [1 / 6, 2 / 3, 1 / 6]
+    yn, yw = [2 - r2, 2 + r2], [(2 + r2) / 4, (2 - r2) / 4]
+    for r in recs:
+        th, ka, sg2, E, v = (frf(r[k]) for k in ("theta", "kappa", "sigma2", "E", "v"))
+        m, s2, psi = frf(r["m"]), frf(r["s2"]), frf(r["psi"])
+        sigma = math.sqrt(sg2)
+        # a float64 tensor: Python-float parameters are converted through the default dtype (float32) inside the generators,
+        # which would move exp(-kappa dt) by 1e-8 (theta, kappa, sigma are dyadic and survive that conversion exactly)
+        dt = torch.tensor(-math.log(E) / ka, dtype=DT)
+        detail = {"theta": th, "kappa": ka, "sigma": sigma, "dt": float(dt), "exp(-kappa dt)": E, "from": v, "branch": r["branch"], "psi": psi,
+                  "conditional_mean": m, "conditional_variance": s2}
+        if r["branch"] == "quadratic":
+            Z = torch.tensor([[z, 0.0] for z in zn], dtype=DT)
+            U = torch.full_like(Z, 0.5)
+            w = torch.tensor(zw, dtype=DT)
+            atom = 0.0
+        else:
+            p, beta = frf(r["p"]), frf(r["beta"])
+            us = [1 - (1 - p) * math.exp(-y) for y in yn] + [p / 2, p * (1 - 1e-9), p + (1 - p) * 1e-6]
+            U = torch.tensor([[u, 0.5] for u in us], dtype=DT)
+            Z = torch.zeros_like(U)
+            w = torch.tensor([(1 - p) * x for x in yw] + [0.0, 0.0, 0.0], dtype=DT)
+            atom = p
+        for gen in ("generate_cir", "generate_heston"):
+            try:
+                with patched(torch, "randn_like", lambda t, **k: Z.clone().to(t.dtype)), patched(torch, "rand_like", lambda t, **k: U.clone().to(t.dtype)):
+                    if gen == "generate_cir":
+                        out = generate_cir(Z.size(0), 2, init_state=(v,), kappa=ka, theta=th, sigma=sigma, dt=dt, dtype=DT)
+                    else:
+                        out = generate_heston(Z.size(0), 2, init_state=(1.0, v), kappa=ka, theta=th, sigma=sigma, rho=-0.5, dt=dt, dtype=DT).variance
+            except Exception as ex:
+                ctx.violation(f"cir:{gen}:raises", f"{gen} raised {type(ex).__name__} on supplied quadrature nodes", {**detail, "error": repr(ex)[:200]})
+                continue
+            ctx.count(n=1)
+            V = out[:, 1]
+            mean = float((w * V).sum())
+            second = float((w * V * V).sum())
+            var = second - mean * mean
+            d = {**detail, "generator": gen, "one_step_values": V.tolist(), "observed_mean": mean, "observed_variance": var}
+            if not bool(V.isfinite().all()) or not (abs(mean - m) <= 1e-9 * (abs(m) + 1e-12)):
+                ctx.violation(f"cir:{r['branch']}:mean", f"one {r['branch']} step of the CIR scheme does not have the mean-reverting conditional mean theta + (v - theta) exp(-kappa dt)", d)
+            elif not (abs(var - s2) <= 1e-8 * (s2 + 1e-12 * m * m)):
+                ctx.violation(f"cir:{r['branch']}:variance", f"one {r['branch']} step of the CIR scheme does not have the conditional variance of the CIR process", d)
+            if r["branch"] == "exponential":
+                z0, zlo, zhi = float(V[2]), float(V[3]), float(V[4])
+                if z0 != 0.0 or zlo != 0.0 or not (zhi > 0.0):
+                    ctx.violation("cir:exponential:atom", "the exponential branch does not put the mass p = (psi - 1)/(psi + 1) at zero", {**d, "p": atom, "at_p/2": z0, "just_below_p": zlo, "just_above_p": zhi})
+
+
 def check(ctx: Ctx) -> None:
+    cir = ctx.tlc("MC_CIR", "MC_CIR.cfg", workers=4)
+    if cir.actions.get("Step", [0, 0])[1] == 0 or len(cir.records) < 100:
+        raise MachineryError("CIR.tla: moment machine not exercised")
+    crecs = [r for r in cir.records if r.get("rec") == "cir_step"]
+    if not any(r["branch"] == "exponential" for r in crecs) or not any(r["branch"] == "quadratic" for r in crecs):
+        raise MachineryError("CIR.tla: one branch of the scheme never selected")
+    cir_moments(ctx, crecs)
+    for r in crecs:
+        ctx.distinct.add(json.dumps(["cir", r["theta"], r["kappa"], r["sigma2"], r["E"], r["v"]]))
+    ctx.sample(next(r for r in crecs if r["branch"] == "exponential"))
+    probe0 = Ctx.__new__(Ctx)
+    probe0.__dict__.update({"_per_key": {}, "violations": [], "findings": [], "known_hits": {}, "evaluations": 0, "distinct": set()})
+    badc = json.loads(json.dumps(next(r for r in crecs if r["branch"] == "quadratic")))
+    badc["s2"] = [badc["s2"][0] * 5, badc["s2"][1] * 4]               # a conditional variance 25 % too large
+    cir_moments(probe0, [badc])
+    ctx.selftest("a CIR step record with a corrupted conditional variance is rejected", any(v["key"] == "cir:quadratic:variance" for v in probe0.violations))
     results = [ctx.tlc("MC_Sim", f"MC_Sim_{c}.cfg", workers=4) for c in CFGS[ctx.tier]]
     recs: List[Dict[str, Any]] = []
     for res in results:
@@ -165,13 +238,15 @@ def check(ctx: Ctx) -> None:
     bad[2]["path"][-1][1] += 1                                   # one Brownian increment too many
     replay(probe, bad)
     ctx.selftest("a specification path with a corrupted Brownian sum is rejected", any(v["key"].startswith("scheme:gbm") for v in probe.violations))
-    ctx.traces_validated = len(recs)
+    ctx.traces_validated = len(recs) + len(crecs)
     ctx.exhaustive = True
-    ctx.rule = ("every sequence of supplied normals z in {-1,0,1,2}^(T-1) (T=4; Merton: z, y in {-1,1}, jump counts in {0,1,4}, T=3) for 6 schemes, "
+    ctx.rule = ("every parameter point of CIR.tla (theta, kappa, sigma^2, exp(-kappa dt), starting value; both branches) with one real step on quadrature nodes, generate_cir and generate_heston; "
+                "every sequence of supplied normals z in {-1,0,1,2}^(T-1) (T=4; Merton: z, y in {-1,1}, jump counts in {0,1,4}, T=3) for 6 schemes, "
                 "replayed with 2-5 parameter sets each; distinct = distinct (scheme, normals)")
     ctx.assumptions += ["Vasicek paths are compared with relative tolerance 1e-6: the generator converts Python-float parameters through float32",
                         "PARTIAL CLAIM: only path-wise exactness under supplied normals (Brownian, GBM, Merton, Kou at zero intensity, Vasicek, local volatility) is decided; "
-                        "distributional statements (moments, correlations, rough Bergomi, CIR/Heston schemes) are not",
+                        "one-step conditional mean and variance of the CIR/Heston variance scheme are decided exactly (quadrature nodes) and their propagation to the closed-form "
+                        "mean-reverting moments by TLC (tower law); other distributional statements (sample moments of prices, Heston correlation, rough Bergomi) are not",
                         "randn_like / Poisson.sample are replaced for the duration of one call (public torch API, not a pfhedge internal)"]
 
 
